@@ -711,8 +711,19 @@ func runEoseGate(c *core.Ctx) {
 	m := infos["ServerEOSEMsg"].msg
 	idxPath := infos["ServerEOSEMsg"].idx
 	subID := an.PathOf(m) + ".SubscriptionID"
-	ads := callsTo(fn, allDone)
-	mk := callsTo(fn, mark)
+	// the gate sequence (all-done? → mark → all-done?) in the handler itself or in a private
+	// helper it delegates the decision to (`if !s.completeEOSE(id, idx) { return nil }`)
+	var adOcc, mkOcc []an.Occ
+	an.Region(fn, func(g *ssa.Function) bool { return g == allDone || g == mark }, func(o an.Occ) {
+		if call, ok := o.In.(*ssa.Call); ok {
+			switch an.StaticCallee(&call.Call) {
+			case allDone:
+				adOcc = append(adOcc, o)
+			case mark:
+				mkOcc = append(mkOcc, o)
+			}
+		}
+	})
 	var ret *ssa.BasicBlock
 	for _, rb := range an.ReturnBlocks(fn) {
 		rv := an.ReturnValues(an.LastInstr(rb).(*ssa.Return))
@@ -725,34 +736,61 @@ func runEoseGate(c *core.Ctx) {
 			c.Check(rv[0] == m, nil, fname(c, fn), "forwarded-value", P.Pos(rb.Instrs[len(rb.Instrs)-1].Pos()), "the forwarded EOSE is the child's own message (its subscription id)", "the forwarded EOSE is not the child's own message")
 		}
 	}
-	good := ret != nil && len(ads) == 2 && len(mk) == 1
-	detail := fmt.Sprintf("all-done calls: %d, mark calls: %d", len(ads), len(mk))
+	good := ret != nil && len(adOcc) == 2 && len(mkOcc) == 1
+	detail := fmt.Sprintf("all-done calls: %d, mark calls: %d", len(adOcc), len(mkOcc))
 	if good {
-		first, second := ads[0], ads[1]
-		if !an.InstrDominates(first, second) {
-			first, second = second, first
-		}
-		argsOK := an.PathOf(first.Call.Args[1]) == subID && an.PathOf(second.Call.Args[1]) == subID &&
-			an.PathOf(mk[0].Call.Args[1]) == subID && an.PathOf(mk[0].Call.Args[2]) == idxPath
-		order := an.InstrDominates(first, mk[0]) && an.InstrDominates(mk[0], second)
-		e1, e2 := false, false
-		for _, g := range an.Guards(fn, ret) {
-			if g.V == ssa.Value(first) && !g.True {
-				e1 = true
+		ads := []*ssa.Call{adOcc[0].In.(*ssa.Call), adOcc[1].In.(*ssa.Call)}
+		mk := mkOcc[0].In.(*ssa.Call)
+		host := mk.Parent()
+		if ads[0].Parent() != host || ads[1].Parent() != host {
+			good = false
+			detail = "the all-done tests and the mark are spread over different functions"
+		} else {
+			first, second := ads[0], ads[1]
+			fo, so := adOcc[0], adOcc[1]
+			if !an.InstrDominates(first, second) {
+				first, second = second, first
+				fo, so = so, fo
 			}
-			if g.V == ssa.Value(second) && g.True {
-				e2 = true
+			argsOK := fo.Path(first.Call.Args[1]) == subID && so.Path(second.Call.Args[1]) == subID &&
+				mkOcc[0].Path(mk.Call.Args[1]) == subID && mkOcc[0].Path(mk.Call.Args[2]) == idxPath
+			order := an.InstrDominates(first, mk) && an.InstrDominates(mk, second)
+			e1, e2 := false, false
+			if host == fn {
+				for _, g := range an.Guards(fn, ret) {
+					if g.V == ssa.Value(first) && !g.True {
+						e1 = true
+					}
+					if g.V == ssa.Value(second) && g.True {
+						e2 = true
+					}
+				}
+			} else if tps, ok := an.ResultPaths(host, 0, true); ok && len(tps) > 0 && len(mkOcc[0].Chain) > 0 {
+				// the helper answers "forward" only with first=false and second=true …
+				e1 = an.AllHave(tps, func(g an.Cond) bool { return g.V == ssa.Value(first) && !g.True })
+				e2 = an.AllHave(tps, func(g an.Cond) bool { return g.V == ssa.Value(second) && g.True })
+				// … and the handler forwards only on that answer
+				fwdOnTrue := false
+				top := mkOcc[0].Chain[0]
+				for _, g := range an.Guards(fn, ret) {
+					if v, pol := stripNot(g.V, g.True); v == ssa.Value(top) && pol {
+						fwdOnTrue = true
+					}
+				}
+				if len(mkOcc[0].Chain) != 1 || !fwdOnTrue {
+					e1, e2 = false, false
+				}
 			}
-		}
-		// the mark itself runs only when not already all-done
-		markGuard := false
-		for _, g := range an.Guards(fn, mk[0].Block()) {
-			if g.V == ssa.Value(first) && !g.True {
-				markGuard = true
+			// the mark itself runs only when not already all-done
+			markGuard := false
+			for _, g := range an.Guards(host, mk.Block()) {
+				if g.V == ssa.Value(first) && !g.True {
+					markGuard = true
+				}
 			}
+			good = argsOK && order && e1 && e2 && markGuard
+			detail = fmt.Sprintf("args(subID, idx) ok: %v; order all-done→mark→all-done: %v; forwarded on (first=false: %v, second=true: %v); mark behind first=false: %v", argsOK, order, e1, e2, markGuard)
 		}
-		good = argsOK && order && e1 && e2 && markGuard
-		detail = fmt.Sprintf("args(subID, idx) ok: %v; order all-done→mark→all-done: %v; forwarded on (first=false: %v, second=true: %v); mark behind first=false: %v", argsOK, order, e1, e2, markGuard)
 	}
 	c.Check(good, nil, fname(c, fn), "gate", P.Pos(fn.Pos()), "EOSE is forwarded only when: not already complete, this child's flag set, now complete — so not before every child and not twice", "EOSE gate shape broken ("+detail+"): the EOSE can be forwarded early, twice, or never")
 }
@@ -834,16 +872,18 @@ func runSlotRelease(c *core.Ctx) {
 		_, infos := outboundInfo(c)
 		m := infos[row.typ].msg
 		id := an.PathOf(m) + "." + row.idField
-		// the releasing call: a state method that deletes from the state's map by its parameter
+		// the releasing call: a state method that deletes from the state's map by its parameter —
+		// made by the handler or by a private helper the handler delegates the whole step to
 		var rel *ssa.Call
-		for _, ci := range calls(fn) {
-			call, ok := ci.(*ssa.Call)
+		var relOcc an.Occ
+		an.Region(fn, nil, func(o an.Occ) {
+			call, ok := o.In.(*ssa.Call)
 			if !ok {
-				continue
+				return
 			}
 			sc := an.StaticCallee(&call.Call)
 			if sc == nil || sc.Signature.Recv() == nil || !isMergeState(sc.Signature.Recv().Type()) {
-				continue
+				return
 			}
 			dels := false
 			an.Instrs(sc, func(in ssa.Instruction) {
@@ -854,16 +894,18 @@ func runSlotRelease(c *core.Ctx) {
 				}
 			})
 			if dels {
-				rel = call
+				rel, relOcc = call, o
 			}
-		}
+		})
 		good := rel != nil
 		detail := "no call releases the slot"
 		if rel != nil {
-			detail = "release(" + an.PathOf(rel.Call.Args[1]) + ")"
-			good = an.PathOf(rel.Call.Args[1]) == id
+			host := rel.Parent()
+			tr := relOcc.Path
+			detail = "release(" + tr(rel.Call.Args[1]) + ")"
+			good = tr(rel.Call.Args[1]) == id
 			n := 0
-			for _, rb := range an.ReturnBlocks(fn) {
+			for _, rb := range an.ReturnBlocks(host) {
 				rv := an.ReturnValues(an.LastInstr(rb).(*ssa.Return))
 				if an.IsNilConst(rv[0]) {
 					continue
@@ -875,7 +917,7 @@ func runSlotRelease(c *core.Ctx) {
 				}
 				// the reply is the aggregate for the same id, taken before the release
 				agg := an.CallOf(rv[0])
-				if agg == nil || an.PathOf(agg.Call.Args[1]) != id || !an.InstrDominates(agg, rel) {
+				if agg == nil || len(agg.Call.Args) < 2 || tr(agg.Call.Args[1]) != id || !an.InstrDominates(agg, rel) {
 					good = false
 					detail += "; the reply is not the aggregate of the same id computed before the release"
 				}
@@ -886,14 +928,29 @@ func runSlotRelease(c *core.Ctx) {
 			}
 			// replying only when Ready(id)
 			ready := false
-			for _, g := range an.Guards(fn, rel.Block()) {
-				if call, ok := g.V.(*ssa.Call); ok && g.True && strings.HasSuffix(an.CalleeName(&call.Call), ").Ready") && an.PathOf(call.Call.Args[1]) == id {
+			for _, g := range an.Guards(host, rel.Block()) {
+				if call, ok := g.V.(*ssa.Call); ok && g.True && strings.HasSuffix(an.CalleeName(&call.Call), ").Ready") && tr(call.Call.Args[1]) == id {
 					ready = true
 				}
 			}
 			if !ready {
 				good = false
 				detail += "; not guarded by Ready(id)"
+			}
+			// delegated: the handler's only reply is what the helper answers
+			if host != fn {
+				if len(relOcc.Chain) != 1 {
+					good = false
+					detail += "; the step is delegated through more than one level"
+				} else {
+					for _, rb := range an.ReturnBlocks(fn) {
+						rv := an.ReturnValues(an.LastInstr(rb).(*ssa.Return))
+						if !an.IsNilConst(rv[0]) && an.Unwrap(rv[0]) != ssa.Value(relOcc.Chain[0]) {
+							good = false
+							detail += "; the handler replies with something else than the delegated step's answer"
+						}
+					}
+				}
 			}
 		}
 		c.Check(good, nil, fname(c, fn), "release("+row.idField+")", P.Pos(fn.Pos()), "a reply is produced only when Ready("+row.idField+"), is the aggregate for that id, and the slot of that id is released on the way", "aggregation/release shape broken: "+detail+" — a second reply for the same request, or a stale slot answering a later request")
@@ -1024,14 +1081,30 @@ func runOkAgg(c *core.Ctx) {
 	// return join(rejected) iff len(rejected) > 0, else join(accepted)
 	okRet := false
 	detail := ""
-	for _, rb := range an.ReturnBlocks(msgFn) {
+	// the function that chooses between the two lists: Msg, or a private helper it returns
+	host := msgFn
+	for depth := 0; depth < 2; depth++ {
+		var next *ssa.Function
+		for _, rb := range an.ReturnBlocks(host) {
+			if call := an.CallOf(an.ReturnValues(an.LastInstr(rb).(*ssa.Return))[0]); call != nil {
+				if h := an.StaticCallee(&call.Call); an.PrivateHelper(h) && h != join {
+					next = h
+				}
+			}
+		}
+		if next == nil {
+			break
+		}
+		host = next
+	}
+	for _, rb := range an.ReturnBlocks(host) {
 		call := an.CallOf(an.LastInstr(rb).(*ssa.Return).Results[0])
 		if call == nil || an.StaticCallee(&call.Call) != join {
 			continue
 		}
 		arg := call.Call.Args[0]
 		guardedByLen := false
-		for _, g := range an.Guards(msgFn, rb) {
+		for _, g := range an.Guards(host, rb) {
 			if b, ok := g.V.(*ssa.BinOp); ok && strings.HasPrefix(an.PathOf(b.X), "len(") && g.True && b.Op == token.GTR {
 				if k, isK := an.ConstInt(b.Y); isK && k == 0 {
 					if lp, ok := b.X.(*ssa.Call); ok && (lp.Call.Args[0] == arg || onlyPolarity(lp.Call.Args[0], false)) {
